@@ -18,6 +18,19 @@ namespace AL.Spec.X86
 
 abbrev Bytes := List Nat
 
+/-- a mnemonic: its characters as numbers (no `String`: the kernel evaluates list literals cheaply, which lets the finite
+    families over this table be decided by `decide +kernel`) -/
+abbrev Mn := List Nat
+
+open Lean in
+/-- `mn! "add"` is the list literal `[97, 100, 100]` -/
+macro "mn! " s:str : term => do
+  let cs : Array (TSyntax `term) :=
+    (s.getString.toUTF8.toList.map (fun b => (Syntax.mkNumLit (toString b.toNat) : TSyntax `term))).toArray
+  `(([$cs,*] : List Nat))
+
+def Mn.str (m : Mn) : String := String.ofList (m.map Char.ofNat)
+
 inductive File | gpr8 | gpr8h | gpr16 | gpr32 | gpr64 | mm | xmm | ymm
 deriving DecidableEq, Repr
 
@@ -44,7 +57,7 @@ inductive Opnd
 deriving DecidableEq, Repr
 
 structure Dec where
-  mn  : String
+  mn  : Mn
   ops : List Opnd
   len : Nat
 deriving DecidableEq, Repr
@@ -100,7 +113,7 @@ inductive VexL | none | l128 | l256 | lz
 deriving DecidableEq, Repr
 
 structure Enc where
-  mn    : String
+  mn    : Mn
   pk    : PK := .opsize
   map   : Nat := 0              -- 0 one-byte, 1 0F, 2 0F38, 3 0F3A
   opc   : Nat
@@ -116,7 +129,7 @@ deriving Repr
 /-! ### the opcode table (subset) -/
 
 open OpT Size Cls in
-def alu (mn : String) (n : Nat) : List Enc :=
+def alu (mn : Mn) (n : Nat) : List Enc :=
   [ { mn, opc := 8 * n,     ops := [rm gpr s8 s8, reg gpr s8] },
     { mn, opc := 8 * n + 1, ops := [rm gpr osz osz, reg gpr osz] },
     { mn, opc := 8 * n + 2, ops := [reg gpr s8, rm gpr s8 s8] },
@@ -128,7 +141,7 @@ def alu (mn : String) (n : Nat) : List Enc :=
     { mn, opc := 0x83, ext := some n, ops := [rm gpr osz osz, immS8] } ]
 
 open OpT Size Cls in
-def shiftGrp (mn : String) (n : Nat) : List Enc :=
+def shiftGrp (mn : Mn) (n : Nat) : List Enc :=
   [ { mn, opc := 0xC0, ext := some n, ops := [rm gpr s8 s8, imm8 8] },
     { mn, opc := 0xC1, ext := some n, ops := [rm gpr osz osz, imm8 8] },
     { mn, opc := 0xD0, ext := some n, ops := [rm gpr s8 s8, one] },
@@ -137,168 +150,168 @@ def shiftGrp (mn : String) (n : Nat) : List Enc :=
     { mn, opc := 0xD3, ext := some n, ops := [rm gpr osz osz, cl] } ]
 
 /-- condition code names, canonical spelling per code -/
-def ccNames : List String :=
-  ["o", "no", "b", "ae", "e", "ne", "be", "a", "s", "ns", "p", "np", "l", "ge", "le", "g"]
+def ccNames : List Mn :=
+  [(mn! "o"), (mn! "no"), (mn! "b"), (mn! "ae"), (mn! "e"), (mn! "ne"), (mn! "be"), (mn! "a"), (mn! "s"), (mn! "ns"), (mn! "p"), (mn! "np"), (mn! "l"), (mn! "ge"), (mn! "le"), (mn! "g")]
 
 open OpT Size Cls in
 def ccGrp : List Enc :=
   (List.range 16).flatMap fun c =>
-    let cc := ccNames.getD c ""
-    [ { mn := "cmov" ++ cc, map := 1, opc := 0x40 + c, ops := [reg gpr osz, rm gpr osz osz] },
-      { mn := "set" ++ cc, map := 1, opc := 0x90 + c, ops := [rm gpr s8 s8] },
-      { mn := "j" ++ cc, opc := 0x70 + c, ops := [rel8] },
-      { mn := "j" ++ cc, map := 1, opc := 0x80 + c, ops := [rel32] } ]
+    let cc := ccNames.getD c (mn! "")
+    [ { mn := (mn! "cmov") ++ cc, map := 1, opc := 0x40 + c, ops := [reg gpr osz, rm gpr osz osz] },
+      { mn := (mn! "set") ++ cc, map := 1, opc := 0x90 + c, ops := [rm gpr s8 s8] },
+      { mn := (mn! "j") ++ cc, opc := 0x70 + c, ops := [rel8] },
+      { mn := (mn! "j") ++ cc, map := 1, opc := 0x80 + c, ops := [rel32] } ]
 
 open OpT Size Cls in
 def unaryGrp : List Enc :=
-  [ { mn := "test", opc := 0xF6, ext := some 0, ops := [rm gpr s8 s8, imm8 8] },
-    { mn := "test", opc := 0xF7, ext := some 0, ops := [rm gpr osz osz, immZ] },
-    { mn := "not", opc := 0xF6, ext := some 2, ops := [rm gpr s8 s8] },
-    { mn := "not", opc := 0xF7, ext := some 2, ops := [rm gpr osz osz] },
-    { mn := "neg", opc := 0xF6, ext := some 3, ops := [rm gpr s8 s8] },
-    { mn := "neg", opc := 0xF7, ext := some 3, ops := [rm gpr osz osz] },
-    { mn := "imul", opc := 0xF6, ext := some 5, ops := [rm gpr s8 s8] },
-    { mn := "imul", opc := 0xF7, ext := some 5, ops := [rm gpr osz osz] },
-    { mn := "inc", opc := 0xFE, ext := some 0, ops := [rm gpr s8 s8] },
-    { mn := "inc", opc := 0xFF, ext := some 0, ops := [rm gpr osz osz] },
-    { mn := "dec", opc := 0xFE, ext := some 1, ops := [rm gpr s8 s8] },
-    { mn := "dec", opc := 0xFF, ext := some 1, ops := [rm gpr osz osz] },
-    { mn := "call", opc := 0xFF, ext := some 2, dflt64 := true, ops := [rm gpr osz64 osz64] },
-    { mn := "callf", opc := 0xFF, ext := some 3, ops := [rmMem none] },
-    { mn := "jmp", opc := 0xFF, ext := some 4, dflt64 := true, ops := [rm gpr osz64 osz64] },
-    { mn := "jmpf", opc := 0xFF, ext := some 5, ops := [rmMem none] },
-    { mn := "push", opc := 0xFF, ext := some 6, dflt64 := true, ops := [rm gpr osz64 osz64] } ]
+  [ { mn := (mn! "test"), opc := 0xF6, ext := some 0, ops := [rm gpr s8 s8, imm8 8] },
+    { mn := (mn! "test"), opc := 0xF7, ext := some 0, ops := [rm gpr osz osz, immZ] },
+    { mn := (mn! "not"), opc := 0xF6, ext := some 2, ops := [rm gpr s8 s8] },
+    { mn := (mn! "not"), opc := 0xF7, ext := some 2, ops := [rm gpr osz osz] },
+    { mn := (mn! "neg"), opc := 0xF6, ext := some 3, ops := [rm gpr s8 s8] },
+    { mn := (mn! "neg"), opc := 0xF7, ext := some 3, ops := [rm gpr osz osz] },
+    { mn := (mn! "imul"), opc := 0xF6, ext := some 5, ops := [rm gpr s8 s8] },
+    { mn := (mn! "imul"), opc := 0xF7, ext := some 5, ops := [rm gpr osz osz] },
+    { mn := (mn! "inc"), opc := 0xFE, ext := some 0, ops := [rm gpr s8 s8] },
+    { mn := (mn! "inc"), opc := 0xFF, ext := some 0, ops := [rm gpr osz osz] },
+    { mn := (mn! "dec"), opc := 0xFE, ext := some 1, ops := [rm gpr s8 s8] },
+    { mn := (mn! "dec"), opc := 0xFF, ext := some 1, ops := [rm gpr osz osz] },
+    { mn := (mn! "call"), opc := 0xFF, ext := some 2, dflt64 := true, ops := [rm gpr osz64 osz64] },
+    { mn := (mn! "callf"), opc := 0xFF, ext := some 3, ops := [rmMem none] },
+    { mn := (mn! "jmp"), opc := 0xFF, ext := some 4, dflt64 := true, ops := [rm gpr osz64 osz64] },
+    { mn := (mn! "jmpf"), opc := 0xFF, ext := some 5, ops := [rmMem none] },
+    { mn := (mn! "push"), opc := 0xFF, ext := some 6, dflt64 := true, ops := [rm gpr osz64 osz64] } ]
 
 open OpT Size Cls in
 def intMisc : List Enc :=
-  [ { mn := "test", opc := 0x84, ops := [rm gpr s8 s8, reg gpr s8] },
-    { mn := "test", opc := 0x85, ops := [rm gpr osz osz, reg gpr osz] },
-    { mn := "test", opc := 0xA8, ops := [acc s8, imm8 8] },
-    { mn := "test", opc := 0xA9, ops := [acc osz, immZ] },
-    { mn := "xchg", opc := 0x86, ops := [rm gpr s8 s8, reg gpr s8] },
-    { mn := "xchg", opc := 0x87, ops := [rm gpr osz osz, reg gpr osz] },
-    { mn := "xchg", opc := 0x90, plusR := true, ops := [opc osz, acc osz] },
-    { mn := "mov", opc := 0x88, ops := [rm gpr s8 s8, reg gpr s8] },
-    { mn := "mov", opc := 0x89, ops := [rm gpr osz osz, reg gpr osz] },
-    { mn := "mov", opc := 0x8A, ops := [reg gpr s8, rm gpr s8 s8] },
-    { mn := "mov", opc := 0x8B, ops := [reg gpr osz, rm gpr osz osz] },
-    { mn := "mov", opc := 0xB0, plusR := true, ops := [opc s8, imm8 8] },
-    { mn := "mov", opc := 0xB8, plusR := true, ops := [opc osz, immFull] },
-    { mn := "mov", opc := 0xC6, ext := some 0, ops := [rm gpr s8 s8, imm8 8] },
-    { mn := "mov", opc := 0xC7, ext := some 0, ops := [rm gpr osz osz, immZ] },
-    { mn := "lea", opc := 0x8D, ops := [reg gpr osz, rmMem none] },
-    { mn := "push", opc := 0x50, plusR := true, dflt64 := true, ops := [opc osz64] },
-    { mn := "pop", opc := 0x58, plusR := true, dflt64 := true, ops := [opc osz64] },
-    { mn := "push", opc := 0x68, dflt64 := true, ops := [imm32s64] },
-    { mn := "push", opc := 0x6A, dflt64 := true, ops := [imm8s64] },
-    { mn := "imul", opc := 0x69, ops := [reg gpr osz, rm gpr osz osz, immZ] },
-    { mn := "imul", opc := 0x6B, ops := [reg gpr osz, rm gpr osz osz, immS8] },
-    { mn := "imul", map := 1, opc := 0xAF, ops := [reg gpr osz, rm gpr osz osz] },
-    { mn := "movzx", map := 1, opc := 0xB6, ops := [reg gpr osz, rm gpr s8 s8] },
-    { mn := "movzx", map := 1, opc := 0xB7, ops := [reg gpr osz, rm gpr s16 s16] },
-    { mn := "shld", map := 1, opc := 0xA4, ops := [rm gpr osz osz, reg gpr osz, imm8 8] },
-    { mn := "shld", map := 1, opc := 0xA5, ops := [rm gpr osz osz, reg gpr osz, cl] },
-    { mn := "shrd", map := 1, opc := 0xAC, ops := [rm gpr osz osz, reg gpr osz, imm8 8] },
-    { mn := "shrd", map := 1, opc := 0xAD, ops := [rm gpr osz osz, reg gpr osz, cl] },
-    { mn := "jmp", opc := 0xEB, ops := [rel8] },
-    { mn := "jmp", opc := 0xE9, ops := [rel32] },
-    { mn := "call", opc := 0xE8, ops := [rel32] },
-    { mn := "jrcxz", opc := 0xE3, ops := [rel8] },
-    { mn := "xbegin", opc := 0xC7, modrm := some 0xF8, ops := [rel32] },
-    { mn := "xabort", opc := 0xC6, modrm := some 0xF8, ops := [imm8 8] },
-    { mn := "xend", map := 1, opc := 0x01, modrm := some 0xD5, ops := [] },
-    { mn := "rdtscp", map := 1, opc := 0x01, modrm := some 0xF9, ops := [] },
-    { mn := "lfence", map := 1, opc := 0xAE, modrm := some 0xE8, ops := [] },
-    { mn := "mfence", map := 1, opc := 0xAE, modrm := some 0xF0, ops := [] },
-    { mn := "sfence", map := 1, opc := 0xAE, modrm := some 0xF8, ops := [] },
-    { mn := "clflush", map := 1, opc := 0xAE, ext := some 7, ops := [rmMem s8] },
-    { mn := "prefetchnta", map := 1, opc := 0x18, ext := some 0, ops := [rmMem s8] },
-    { mn := "prefetcht0", map := 1, opc := 0x18, ext := some 1, ops := [rmMem s8] },
-    { mn := "prefetcht1", map := 1, opc := 0x18, ext := some 2, ops := [rmMem s8] },
-    { mn := "prefetcht2", map := 1, opc := 0x18, ext := some 3, ops := [rmMem s8] },
-    { mn := "nop", map := 1, opc := 0x1F, ext := some 0, ops := [rm gpr osz osz] },
-    { mn := "cpuid", map := 1, opc := 0xA2, ops := [] },
-    { mn := "rdtsc", map := 1, opc := 0x31, ops := [] },
-    { mn := "rdpmc", map := 1, opc := 0x33, ops := [] },
-    { mn := "clc", opc := 0xF8, ops := [] },
-    { mn := "ret", opc := 0xC3, ops := [] },
-    { mn := "adcx", pk := .p66, map := 2, opc := 0xF6, ops := [reg gpr w3264, rm gpr w3264 w3264] },
-    { mn := "adox", pk := .pF3, map := 2, opc := 0xF6, ops := [reg gpr w3264, rm gpr w3264 w3264] } ]
+  [ { mn := (mn! "test"), opc := 0x84, ops := [rm gpr s8 s8, reg gpr s8] },
+    { mn := (mn! "test"), opc := 0x85, ops := [rm gpr osz osz, reg gpr osz] },
+    { mn := (mn! "test"), opc := 0xA8, ops := [acc s8, imm8 8] },
+    { mn := (mn! "test"), opc := 0xA9, ops := [acc osz, immZ] },
+    { mn := (mn! "xchg"), opc := 0x86, ops := [rm gpr s8 s8, reg gpr s8] },
+    { mn := (mn! "xchg"), opc := 0x87, ops := [rm gpr osz osz, reg gpr osz] },
+    { mn := (mn! "xchg"), opc := 0x90, plusR := true, ops := [opc osz, acc osz] },
+    { mn := (mn! "mov"), opc := 0x88, ops := [rm gpr s8 s8, reg gpr s8] },
+    { mn := (mn! "mov"), opc := 0x89, ops := [rm gpr osz osz, reg gpr osz] },
+    { mn := (mn! "mov"), opc := 0x8A, ops := [reg gpr s8, rm gpr s8 s8] },
+    { mn := (mn! "mov"), opc := 0x8B, ops := [reg gpr osz, rm gpr osz osz] },
+    { mn := (mn! "mov"), opc := 0xB0, plusR := true, ops := [opc s8, imm8 8] },
+    { mn := (mn! "mov"), opc := 0xB8, plusR := true, ops := [opc osz, immFull] },
+    { mn := (mn! "mov"), opc := 0xC6, ext := some 0, ops := [rm gpr s8 s8, imm8 8] },
+    { mn := (mn! "mov"), opc := 0xC7, ext := some 0, ops := [rm gpr osz osz, immZ] },
+    { mn := (mn! "lea"), opc := 0x8D, ops := [reg gpr osz, rmMem none] },
+    { mn := (mn! "push"), opc := 0x50, plusR := true, dflt64 := true, ops := [opc osz64] },
+    { mn := (mn! "pop"), opc := 0x58, plusR := true, dflt64 := true, ops := [opc osz64] },
+    { mn := (mn! "push"), opc := 0x68, dflt64 := true, ops := [imm32s64] },
+    { mn := (mn! "push"), opc := 0x6A, dflt64 := true, ops := [imm8s64] },
+    { mn := (mn! "imul"), opc := 0x69, ops := [reg gpr osz, rm gpr osz osz, immZ] },
+    { mn := (mn! "imul"), opc := 0x6B, ops := [reg gpr osz, rm gpr osz osz, immS8] },
+    { mn := (mn! "imul"), map := 1, opc := 0xAF, ops := [reg gpr osz, rm gpr osz osz] },
+    { mn := (mn! "movzx"), map := 1, opc := 0xB6, ops := [reg gpr osz, rm gpr s8 s8] },
+    { mn := (mn! "movzx"), map := 1, opc := 0xB7, ops := [reg gpr osz, rm gpr s16 s16] },
+    { mn := (mn! "shld"), map := 1, opc := 0xA4, ops := [rm gpr osz osz, reg gpr osz, imm8 8] },
+    { mn := (mn! "shld"), map := 1, opc := 0xA5, ops := [rm gpr osz osz, reg gpr osz, cl] },
+    { mn := (mn! "shrd"), map := 1, opc := 0xAC, ops := [rm gpr osz osz, reg gpr osz, imm8 8] },
+    { mn := (mn! "shrd"), map := 1, opc := 0xAD, ops := [rm gpr osz osz, reg gpr osz, cl] },
+    { mn := (mn! "jmp"), opc := 0xEB, ops := [rel8] },
+    { mn := (mn! "jmp"), opc := 0xE9, ops := [rel32] },
+    { mn := (mn! "call"), opc := 0xE8, ops := [rel32] },
+    { mn := (mn! "jrcxz"), opc := 0xE3, ops := [rel8] },
+    { mn := (mn! "xbegin"), opc := 0xC7, modrm := some 0xF8, ops := [rel32] },
+    { mn := (mn! "xabort"), opc := 0xC6, modrm := some 0xF8, ops := [imm8 8] },
+    { mn := (mn! "xend"), map := 1, opc := 0x01, modrm := some 0xD5, ops := [] },
+    { mn := (mn! "rdtscp"), map := 1, opc := 0x01, modrm := some 0xF9, ops := [] },
+    { mn := (mn! "lfence"), map := 1, opc := 0xAE, modrm := some 0xE8, ops := [] },
+    { mn := (mn! "mfence"), map := 1, opc := 0xAE, modrm := some 0xF0, ops := [] },
+    { mn := (mn! "sfence"), map := 1, opc := 0xAE, modrm := some 0xF8, ops := [] },
+    { mn := (mn! "clflush"), map := 1, opc := 0xAE, ext := some 7, ops := [rmMem s8] },
+    { mn := (mn! "prefetchnta"), map := 1, opc := 0x18, ext := some 0, ops := [rmMem s8] },
+    { mn := (mn! "prefetcht0"), map := 1, opc := 0x18, ext := some 1, ops := [rmMem s8] },
+    { mn := (mn! "prefetcht1"), map := 1, opc := 0x18, ext := some 2, ops := [rmMem s8] },
+    { mn := (mn! "prefetcht2"), map := 1, opc := 0x18, ext := some 3, ops := [rmMem s8] },
+    { mn := (mn! "nop"), map := 1, opc := 0x1F, ext := some 0, ops := [rm gpr osz osz] },
+    { mn := (mn! "cpuid"), map := 1, opc := 0xA2, ops := [] },
+    { mn := (mn! "rdtsc"), map := 1, opc := 0x31, ops := [] },
+    { mn := (mn! "rdpmc"), map := 1, opc := 0x33, ops := [] },
+    { mn := (mn! "clc"), opc := 0xF8, ops := [] },
+    { mn := (mn! "ret"), opc := 0xC3, ops := [] },
+    { mn := (mn! "adcx"), pk := .p66, map := 2, opc := 0xF6, ops := [reg gpr w3264, rm gpr w3264 w3264] },
+    { mn := (mn! "adox"), pk := .pF3, map := 2, opc := 0xF6, ops := [reg gpr w3264, rm gpr w3264 w3264] } ]
 
 open OpT Size Cls in
 def bmi : List Enc :=
-  [ { mn := "bextr", pk := .np, map := 2, opc := 0xF7, vex := .lz, ops := [reg gpr w3264, rm gpr w3264 w3264, vvvv gpr w3264] },
-    { mn := "bzhi", pk := .np, map := 2, opc := 0xF5, vex := .lz, ops := [reg gpr w3264, rm gpr w3264 w3264, vvvv gpr w3264] },
-    { mn := "shlx", pk := .p66, map := 2, opc := 0xF7, vex := .lz, ops := [reg gpr w3264, rm gpr w3264 w3264, vvvv gpr w3264] },
-    { mn := "sarx", pk := .pF3, map := 2, opc := 0xF7, vex := .lz, ops := [reg gpr w3264, rm gpr w3264 w3264, vvvv gpr w3264] },
-    { mn := "shrx", pk := .pF2, map := 2, opc := 0xF7, vex := .lz, ops := [reg gpr w3264, rm gpr w3264 w3264, vvvv gpr w3264] },
-    { mn := "mulx", pk := .pF2, map := 2, opc := 0xF6, vex := .lz, ops := [reg gpr w3264, vvvv gpr w3264, rm gpr w3264 w3264] },
-    { mn := "rorx", pk := .pF2, map := 3, opc := 0xF0, vex := .lz, ops := [reg gpr w3264, rm gpr w3264 w3264, imm8 8] } ]
+  [ { mn := (mn! "bextr"), pk := .np, map := 2, opc := 0xF7, vex := .lz, ops := [reg gpr w3264, rm gpr w3264 w3264, vvvv gpr w3264] },
+    { mn := (mn! "bzhi"), pk := .np, map := 2, opc := 0xF5, vex := .lz, ops := [reg gpr w3264, rm gpr w3264 w3264, vvvv gpr w3264] },
+    { mn := (mn! "shlx"), pk := .p66, map := 2, opc := 0xF7, vex := .lz, ops := [reg gpr w3264, rm gpr w3264 w3264, vvvv gpr w3264] },
+    { mn := (mn! "sarx"), pk := .pF3, map := 2, opc := 0xF7, vex := .lz, ops := [reg gpr w3264, rm gpr w3264 w3264, vvvv gpr w3264] },
+    { mn := (mn! "shrx"), pk := .pF2, map := 2, opc := 0xF7, vex := .lz, ops := [reg gpr w3264, rm gpr w3264 w3264, vvvv gpr w3264] },
+    { mn := (mn! "mulx"), pk := .pF2, map := 2, opc := 0xF6, vex := .lz, ops := [reg gpr w3264, vvvv gpr w3264, rm gpr w3264 w3264] },
+    { mn := (mn! "rorx"), pk := .pF2, map := 3, opc := 0xF0, vex := .lz, ops := [reg gpr w3264, rm gpr w3264 w3264, imm8 8] } ]
 
 /-- an MMX operation and its SSE2 (66-prefixed) twin -/
-def mmxSse (mn : String) (map opc : Nat) : List Enc :=
+def mmxSse (mn : Mn) (map opc : Nat) : List Enc :=
   [ { mn, pk := .np, map, opc, ops := [.reg .mm .s64, .rm .mm .s64 .s64] },
     { mn, pk := .p66, map, opc, ops := [.reg .xmm .s128, .rm .xmm .s128 .s128] } ]
 
-def sseOnly (mn : String) (pk : PK) (map opc : Nat) (memSz : Size := .s128) : List Enc :=
+def sseOnly (mn : Mn) (pk : PK) (map opc : Nat) (memSz : Size := .s128) : List Enc :=
   [ { mn, pk, map, opc, ops := [.reg .xmm .s128, .rm .xmm .s128 memSz] } ]
 
 open OpT Size Cls in
 def simd : List Enc :=
-  mmxSse "paddb" 1 0xFC ++ mmxSse "paddw" 1 0xFD ++ mmxSse "paddd" 1 0xFE ++ mmxSse "paddq" 1 0xD4 ++
-  mmxSse "psubb" 1 0xF8 ++ mmxSse "psubw" 1 0xF9 ++ mmxSse "psubd" 1 0xFA ++ mmxSse "psubq" 1 0xFB ++
-  mmxSse "pand" 1 0xDB ++ mmxSse "pandn" 1 0xDF ++ mmxSse "por" 1 0xEB ++ mmxSse "pxor" 1 0xEF ++
-  mmxSse "pmulhuw" 1 0xE4 ++ mmxSse "pmulhw" 1 0xE5 ++ mmxSse "pmullw" 1 0xD5 ++ mmxSse "pmuludq" 1 0xF4 ++
-  mmxSse "pmulhrsw" 2 0x0B ++
-  sseOnly "pmuldq" .p66 2 0x28 ++ sseOnly "pmulld" .p66 2 0x40 ++
-  sseOnly "punpcklqdq" .p66 1 0x6C ++ sseOnly "divpd" .p66 1 0x5E ++ sseOnly "mulpd" .p66 1 0x59 ++
-  sseOnly "cvtdq2pd" .pF3 1 0xE6 .s64 ++ sseOnly "cvtpd2dq" .pF2 1 0xE6 ++
-  [ { mn := "movntdqa", pk := .p66, map := 2, opc := 0x2A, ops := [reg xmm s128, rmMem s128] },
-    { mn := "movntq", pk := .np, map := 1, opc := 0xE7, ops := [rmMem s64, reg mm s64] },
-    { mn := "psrldq", pk := .p66, map := 1, opc := 0x73, ext := some 3, ops := [rmReg xmm s128, imm8 8] },
+  mmxSse (mn! "paddb") 1 0xFC ++ mmxSse (mn! "paddw") 1 0xFD ++ mmxSse (mn! "paddd") 1 0xFE ++ mmxSse (mn! "paddq") 1 0xD4 ++
+  mmxSse (mn! "psubb") 1 0xF8 ++ mmxSse (mn! "psubw") 1 0xF9 ++ mmxSse (mn! "psubd") 1 0xFA ++ mmxSse (mn! "psubq") 1 0xFB ++
+  mmxSse (mn! "pand") 1 0xDB ++ mmxSse (mn! "pandn") 1 0xDF ++ mmxSse (mn! "por") 1 0xEB ++ mmxSse (mn! "pxor") 1 0xEF ++
+  mmxSse (mn! "pmulhuw") 1 0xE4 ++ mmxSse (mn! "pmulhw") 1 0xE5 ++ mmxSse (mn! "pmullw") 1 0xD5 ++ mmxSse (mn! "pmuludq") 1 0xF4 ++
+  mmxSse (mn! "pmulhrsw") 2 0x0B ++
+  sseOnly (mn! "pmuldq") .p66 2 0x28 ++ sseOnly (mn! "pmulld") .p66 2 0x40 ++
+  sseOnly (mn! "punpcklqdq") .p66 1 0x6C ++ sseOnly (mn! "divpd") .p66 1 0x5E ++ sseOnly (mn! "mulpd") .p66 1 0x59 ++
+  sseOnly (mn! "cvtdq2pd") .pF3 1 0xE6 .s64 ++ sseOnly (mn! "cvtpd2dq") .pF2 1 0xE6 ++
+  [ { mn := (mn! "movntdqa"), pk := .p66, map := 2, opc := 0x2A, ops := [reg xmm s128, rmMem s128] },
+    { mn := (mn! "movntq"), pk := .np, map := 1, opc := 0xE7, ops := [rmMem s64, reg mm s64] },
+    { mn := (mn! "psrldq"), pk := .p66, map := 1, opc := 0x73, ext := some 3, ops := [rmReg xmm s128, imm8 8] },
     -- movd / movq: the W bit selects the 64-bit general register form
-    { mn := "movd", pk := .np, map := 1, opc := 0x6E, vexW := some false, ops := [reg mm s64, rm gpr s32 s32] },
-    { mn := "movd", pk := .np, map := 1, opc := 0x7E, vexW := some false, ops := [rm gpr s32 s32, reg mm s64] },
-    { mn := "movd", pk := .p66, map := 1, opc := 0x6E, vexW := some false, ops := [reg xmm s128, rm gpr s32 s32] },
-    { mn := "movd", pk := .p66, map := 1, opc := 0x7E, vexW := some false, ops := [rm gpr s32 s32, reg xmm s128] },
-    { mn := "movq", pk := .np, map := 1, opc := 0x6E, vexW := some true, ops := [reg mm s64, rm gpr s64 s64] },
-    { mn := "movq", pk := .np, map := 1, opc := 0x7E, vexW := some true, ops := [rm gpr s64 s64, reg mm s64] },
-    { mn := "movq", pk := .p66, map := 1, opc := 0x6E, vexW := some true, ops := [reg xmm s128, rm gpr s64 s64] },
-    { mn := "movq", pk := .p66, map := 1, opc := 0x7E, vexW := some true, ops := [rm gpr s64 s64, reg xmm s128] },
-    { mn := "movq", pk := .np, map := 1, opc := 0x6F, ops := [reg mm s64, rm mm s64 s64] },
-    { mn := "movq", pk := .np, map := 1, opc := 0x7F, ops := [rm mm s64 s64, reg mm s64] },
-    { mn := "movq", pk := .pF3, map := 1, opc := 0x7E, ops := [reg xmm s128, rm xmm s128 s64] },
-    { mn := "movq", pk := .p66, map := 1, opc := 0xD6, ops := [rm xmm s128 s64, reg xmm s128] } ]
+    { mn := (mn! "movd"), pk := .np, map := 1, opc := 0x6E, vexW := some false, ops := [reg mm s64, rm gpr s32 s32] },
+    { mn := (mn! "movd"), pk := .np, map := 1, opc := 0x7E, vexW := some false, ops := [rm gpr s32 s32, reg mm s64] },
+    { mn := (mn! "movd"), pk := .p66, map := 1, opc := 0x6E, vexW := some false, ops := [reg xmm s128, rm gpr s32 s32] },
+    { mn := (mn! "movd"), pk := .p66, map := 1, opc := 0x7E, vexW := some false, ops := [rm gpr s32 s32, reg xmm s128] },
+    { mn := (mn! "movq"), pk := .np, map := 1, opc := 0x6E, vexW := some true, ops := [reg mm s64, rm gpr s64 s64] },
+    { mn := (mn! "movq"), pk := .np, map := 1, opc := 0x7E, vexW := some true, ops := [rm gpr s64 s64, reg mm s64] },
+    { mn := (mn! "movq"), pk := .p66, map := 1, opc := 0x6E, vexW := some true, ops := [reg xmm s128, rm gpr s64 s64] },
+    { mn := (mn! "movq"), pk := .p66, map := 1, opc := 0x7E, vexW := some true, ops := [rm gpr s64 s64, reg xmm s128] },
+    { mn := (mn! "movq"), pk := .np, map := 1, opc := 0x6F, ops := [reg mm s64, rm mm s64 s64] },
+    { mn := (mn! "movq"), pk := .np, map := 1, opc := 0x7F, ops := [rm mm s64 s64, reg mm s64] },
+    { mn := (mn! "movq"), pk := .pF3, map := 1, opc := 0x7E, ops := [reg xmm s128, rm xmm s128 s64] },
+    { mn := (mn! "movq"), pk := .p66, map := 1, opc := 0xD6, ops := [rm xmm s128 s64, reg xmm s128] } ]
 
 /-- a VEX.NDS three-operand operation in its 128 and 256 bit forms -/
-def vex3 (mn : String) (pk : PK) (map opc : Nat) (both : Bool := true) : List Enc :=
+def vex3 (mn : Mn) (pk : PK) (map opc : Nat) (both : Bool := true) : List Enc :=
   (if both then [{ mn, pk, map, opc, vex := .l128, ops := [.reg .xmm .s128, .vvvv .xmm .s128, .rm .xmm .s128 .s128] }] else []) ++
   [ { mn, pk, map, opc, vex := .l256, ops := [.reg .ymm .s256, .vvvv .ymm .s256, .rm .ymm .s256 .s256] } ]
 
-def vexMov (mn : String) (pk : PK) (ld st : Nat) : List Enc :=
+def vexMov (mn : Mn) (pk : PK) (ld st : Nat) : List Enc :=
   [ { mn, pk, map := 1, opc := ld, vex := .l128, ops := [.reg .xmm .s128, .rm .xmm .s128 .s128] },
     { mn, pk, map := 1, opc := ld, vex := .l256, ops := [.reg .ymm .s256, .rm .ymm .s256 .s256] },
     { mn, pk, map := 1, opc := st, vex := .l128, ops := [.rm .xmm .s128 .s128, .reg .xmm .s128] },
     { mn, pk, map := 1, opc := st, vex := .l256, ops := [.rm .ymm .s256 .s256, .reg .ymm .s256] } ]
 
 def avx : List Enc :=
-  vex3 "vaddpd" .p66 1 0x58 ++ vex3 "vsubpd" .p66 1 0x5C ++ vex3 "vmulpd" .p66 1 0x59 ++ vex3 "vdivpd" .p66 1 0x5E ++
-  vexMov "vmovdqu" .pF3 0x6F 0x7F ++ vexMov "vmovupd" .p66 0x10 0x11 ++
-  vex3 "vpaddb" .p66 1 0xFC ++ vex3 "vpaddw" .p66 1 0xFD ++ vex3 "vpaddd" .p66 1 0xFE ++ vex3 "vpaddq" .p66 1 0xD4 ++
-  vex3 "vpsubb" .p66 1 0xF8 ++ vex3 "vpsubw" .p66 1 0xF9 ++ vex3 "vpsubd" .p66 1 0xFA ++ vex3 "vpsubq" .p66 1 0xFB ++
-  vex3 "vpand" .p66 1 0xDB ++ vex3 "vpandn" .p66 1 0xDF ++ vex3 "vpor" .p66 1 0xEB ++ vex3 "vpxor" .p66 1 0xEF ++
-  vex3 "vpmulhuw" .p66 1 0xE4 ++ vex3 "vpmulhw" .p66 1 0xE5 ++ vex3 "vpmullw" .p66 1 0xD5 ++ vex3 "vpmuludq" .p66 1 0xF4 ++
-  vex3 "vpmulhrsw" .p66 2 0x0B ++ vex3 "vpmuldq" .p66 2 0x28 ++ vex3 "vpmulld" .p66 2 0x40 ++
-  [ { mn := "vpermd", pk := .p66, map := 2, opc := 0x36, vex := .l256, vexW := some false,
+  vex3 (mn! "vaddpd") .p66 1 0x58 ++ vex3 (mn! "vsubpd") .p66 1 0x5C ++ vex3 (mn! "vmulpd") .p66 1 0x59 ++ vex3 (mn! "vdivpd") .p66 1 0x5E ++
+  vexMov (mn! "vmovdqu") .pF3 0x6F 0x7F ++ vexMov (mn! "vmovupd") .p66 0x10 0x11 ++
+  vex3 (mn! "vpaddb") .p66 1 0xFC ++ vex3 (mn! "vpaddw") .p66 1 0xFD ++ vex3 (mn! "vpaddd") .p66 1 0xFE ++ vex3 (mn! "vpaddq") .p66 1 0xD4 ++
+  vex3 (mn! "vpsubb") .p66 1 0xF8 ++ vex3 (mn! "vpsubw") .p66 1 0xF9 ++ vex3 (mn! "vpsubd") .p66 1 0xFA ++ vex3 (mn! "vpsubq") .p66 1 0xFB ++
+  vex3 (mn! "vpand") .p66 1 0xDB ++ vex3 (mn! "vpandn") .p66 1 0xDF ++ vex3 (mn! "vpor") .p66 1 0xEB ++ vex3 (mn! "vpxor") .p66 1 0xEF ++
+  vex3 (mn! "vpmulhuw") .p66 1 0xE4 ++ vex3 (mn! "vpmulhw") .p66 1 0xE5 ++ vex3 (mn! "vpmullw") .p66 1 0xD5 ++ vex3 (mn! "vpmuludq") .p66 1 0xF4 ++
+  vex3 (mn! "vpmulhrsw") .p66 2 0x0B ++ vex3 (mn! "vpmuldq") .p66 2 0x28 ++ vex3 (mn! "vpmulld") .p66 2 0x40 ++
+  [ { mn := (mn! "vpermd"), pk := .p66, map := 2, opc := 0x36, vex := .l256, vexW := some false,
       ops := [.reg .ymm .s256, .vvvv .ymm .s256, .rm .ymm .s256 .s256] },
-    { mn := "vperm2f128", pk := .p66, map := 3, opc := 0x06, vex := .l256, vexW := some false,
+    { mn := (mn! "vperm2f128"), pk := .p66, map := 3, opc := 0x06, vex := .l256, vexW := some false,
       ops := [.reg .ymm .s256, .vvvv .ymm .s256, .rm .ymm .s256 .s256, .imm8 8] },
-    { mn := "vperm2i128", pk := .p66, map := 3, opc := 0x46, vex := .l256, vexW := some false,
+    { mn := (mn! "vperm2i128"), pk := .p66, map := 3, opc := 0x46, vex := .l256, vexW := some false,
       ops := [.reg .ymm .s256, .vvvv .ymm .s256, .rm .ymm .s256 .s256, .imm8 8] } ]
 
 def table : List Enc :=
-  alu "add" 0 ++ alu "or" 1 ++ alu "adc" 2 ++ alu "sbb" 3 ++ alu "and" 4 ++ alu "sub" 5 ++ alu "xor" 6 ++ alu "cmp" 7 ++
-  shiftGrp "ror" 1 ++ shiftGrp "rcr" 3 ++ shiftGrp "shl" 4 ++ shiftGrp "shr" 5 ++ shiftGrp "sar" 7 ++
+  alu (mn! "add") 0 ++ alu (mn! "or") 1 ++ alu (mn! "adc") 2 ++ alu (mn! "sbb") 3 ++ alu (mn! "and") 4 ++ alu (mn! "sub") 5 ++ alu (mn! "xor") 6 ++ alu (mn! "cmp") 7 ++
+  shiftGrp (mn! "ror") 1 ++ shiftGrp (mn! "rcr") 3 ++ shiftGrp (mn! "shl") 4 ++ shiftGrp (mn! "shr") 5 ++ shiftGrp (mn! "sar") 7 ++
   ccGrp ++ unaryGrp ++ intMisc ++ bmi ++ simd ++ avx
 
 /-! ### prefixes -/
@@ -537,7 +550,7 @@ def decode (bs : Bytes) : Option Dec :=
     | opc :: r2 =>
       -- `66 90` / `90` are nop, not xchg; `F3 90` (pause) is not in the subset
       if e.map == 0 && opc == 0x90 && !e.b && !e.vex then
-        some { mn := "nop", ops := [], len := p.n + nExt + 1 }
+        some { mn := (mn! "nop"), ops := [], len := p.n + nExt + 1 }
       else
       let mb := r2.head?
       match table.find? (fun en => encMatches en p e opc mb) with
@@ -569,18 +582,18 @@ def decodeAll : Nat → Bytes → Option (List Dec)
 
 /-! ### canonical mnemonics (synonym classes, from the architecture manuals) -/
 
-def synonyms : List (String × String) :=
-  [ ("sal", "shl"),
-    ("cmovc", "cmovb"), ("cmovnae", "cmovb"), ("cmovnb", "cmovae"), ("cmovnc", "cmovae"), ("cmovz", "cmove"),
-    ("cmovnz", "cmovne"), ("cmovna", "cmovbe"), ("cmovnbe", "cmova"), ("cmovpe", "cmovp"), ("cmovpo", "cmovnp"),
-    ("cmovnge", "cmovl"), ("cmovnl", "cmovge"), ("cmovng", "cmovle"), ("cmovnle", "cmovg"),
-    ("setc", "setb"), ("setnae", "setb"), ("setnb", "setae"), ("setnc", "setae"), ("setz", "sete"),
-    ("setnz", "setne"), ("setna", "setbe"), ("setnbe", "seta"), ("setpe", "setp"), ("setpo", "setnp"),
-    ("setnge", "setl"), ("setnl", "setge"), ("setng", "setle"), ("setnle", "setg"),
-    ("jc", "jb"), ("jnae", "jb"), ("jnb", "jae"), ("jnc", "jae"), ("jz", "je"), ("jnz", "jne"), ("jna", "jbe"),
-    ("jnbe", "ja"), ("jpe", "jp"), ("jpo", "jnp"), ("jnge", "jl"), ("jnl", "jge"), ("jng", "jle"), ("jnle", "jg") ]
+def synonyms : List (Mn × Mn) :=
+  [ ((mn! "sal"), (mn! "shl")),
+    ((mn! "cmovc"), (mn! "cmovb")), ((mn! "cmovnae"), (mn! "cmovb")), ((mn! "cmovnb"), (mn! "cmovae")), ((mn! "cmovnc"), (mn! "cmovae")), ((mn! "cmovz"), (mn! "cmove")),
+    ((mn! "cmovnz"), (mn! "cmovne")), ((mn! "cmovna"), (mn! "cmovbe")), ((mn! "cmovnbe"), (mn! "cmova")), ((mn! "cmovpe"), (mn! "cmovp")), ((mn! "cmovpo"), (mn! "cmovnp")),
+    ((mn! "cmovnge"), (mn! "cmovl")), ((mn! "cmovnl"), (mn! "cmovge")), ((mn! "cmovng"), (mn! "cmovle")), ((mn! "cmovnle"), (mn! "cmovg")),
+    ((mn! "setc"), (mn! "setb")), ((mn! "setnae"), (mn! "setb")), ((mn! "setnb"), (mn! "setae")), ((mn! "setnc"), (mn! "setae")), ((mn! "setz"), (mn! "sete")),
+    ((mn! "setnz"), (mn! "setne")), ((mn! "setna"), (mn! "setbe")), ((mn! "setnbe"), (mn! "seta")), ((mn! "setpe"), (mn! "setp")), ((mn! "setpo"), (mn! "setnp")),
+    ((mn! "setnge"), (mn! "setl")), ((mn! "setnl"), (mn! "setge")), ((mn! "setng"), (mn! "setle")), ((mn! "setnle"), (mn! "setg")),
+    ((mn! "jc"), (mn! "jb")), ((mn! "jnae"), (mn! "jb")), ((mn! "jnb"), (mn! "jae")), ((mn! "jnc"), (mn! "jae")), ((mn! "jz"), (mn! "je")), ((mn! "jnz"), (mn! "jne")), ((mn! "jna"), (mn! "jbe")),
+    ((mn! "jnbe"), (mn! "ja")), ((mn! "jpe"), (mn! "jp")), ((mn! "jpo"), (mn! "jnp")), ((mn! "jnge"), (mn! "jl")), ((mn! "jnl"), (mn! "jge")), ((mn! "jng"), (mn! "jle")), ((mn! "jnle"), (mn! "jg")) ]
 
-def canonMn (m : String) : String :=
+def canonMn (m : Mn) : Mn :=
   match synonyms.find? (fun p => p.1 == m) with
   | some p => p.2
   | none => m
@@ -603,6 +616,6 @@ def Opnd.render : Opnd → String
   | .rel bits d => "rel" ++ toString bits ++ ":" ++ toString d
 
 def Dec.render (d : Dec) : String :=
-  d.mn ++ " " ++ String.intercalate " " (d.ops.map Opnd.render) ++ " #" ++ toString d.len
+  Mn.str d.mn ++ " " ++ String.intercalate " " (d.ops.map Opnd.render) ++ " #" ++ toString d.len
 
 end AL.Spec.X86
